@@ -425,7 +425,7 @@ func (c *c02) leafFacts() {
 			l.oneOf("buf", c02WithoutAlias(l, r.Common().Args[1]), "buffer of exactly ceil(nBits/8) bytes", c02BufForms...)
 			l.argsAre("read", r, "recv.bitBuf BUF p0", "ReadFull(reader, buffer, nBits)")
 		}
-		rev := l.one("pkg/decode.ReverseBytes", "")
+		rev := l.oneReverse()
 		l.argsAre("rev-args", rev, "BUF", "bytes reversed")
 		if rev != nil {
 			l.guarded("rev-le", rev.Block(), "byte reversal must happen exactly for little endian", c02LeGuard(c, "p1")...)
@@ -540,37 +540,7 @@ func (c *c02) leafFacts() {
 	{
 		l := c.lfOf(ru, "pkg/decode.ReverseBytes", "ReverseBytes")
 		if !l.dead {
-			var stores []string
-			fw.EachInstr(l.fn, func(ins ssa.Instruction) {
-				if st, ok := ins.(*ssa.Store); ok {
-					stores = append(stores, l.env.Of(st.Addr)+" <- "+l.env.Of(st.Val))
-				}
-			})
-			sort.Strings(stores)
-			conds := []string{}
-			fw.EachInstr(l.fn, func(ins ssa.Instruction) {
-				if f, ok := ins.(*ssa.If); ok {
-					conds = append(conds, l.env.Of(f.Cond))
-				}
-			})
-			// the index runs over the first half, downwards from len/2-1 to 0 or upwards from 0 to len/2-1
-			type form struct{ i, cond, what string }
-			forms := []form{
-				{"phi{-1 + (/ (len p0) 2) | -1 + @0}", "(>= %s 0)", "i = len/2-1 .. 0"},
-				{"phi{0 | 1 + @0}", "(> (/ (len p0) 2) %s)", "i = 0 .. len/2-1"},
-			}
-			pick := forms[0]
-			for _, f := range forms {
-				if strings.Join(conds, " ; ") == fmt.Sprintf(f.cond, f.i) {
-					pick = f
-				}
-			}
-			i := pick.i
-			j := "-1 + (len p0) + -1*" + i
-			want := []string{"(&idx p0 " + i + ") <- (idx p0 " + j + ")", "(&idx p0 " + j + ") <- (idx p0 " + i + ")"}
-			sort.Strings(want)
-			l.eq("swap", strings.Join(stores, " ; "), strings.Join(want, " ; "), "a[i] and a[len-1-i] are exchanged for "+pick.what)
-			l.eq("loop", strings.Join(conds, " ; "), fmt.Sprintf(pick.cond, i), "loop covers exactly the first half ("+pick.what+")")
+			c02ReverseInPlace(l)
 		}
 	}
 	// tryBool
@@ -1539,7 +1509,7 @@ func (c *c02) floatFacts() {
 	ru := l.ru
 	r := l.calls(c02DM + "TryBits")[0]
 	l.argsAre("read", r, "recv p0", "bits read")
-	rev := l.one("pkg/decode.ReverseBytes", "")
+	rev := l.oneReverse()
 	l.argsAre("rev-args", rev, "(#0 R)", "bytes reversed")
 	if rev != nil {
 		l.guarded("rev-le", rev.Block(), "byte reversal must happen exactly for little endian", c02LeGuard(c, "p1")...)
